@@ -8,6 +8,35 @@ import hypothesis
 from hypothesis import HealthCheck, Phase, given, settings, strategies as st
 
 
+class CaseTimeout(BaseException):
+    """harness safety net, never a verdict: one generated case ran longer than CASE_LIMIT_S of wall clock"""
+
+
+CASE_LIMIT_S = int(os.environ.get('HXV_CASE_LIMIT_S', '900'))
+TIMEOUTS = []
+
+
+def _guarded(body, arg):
+    """run one generated case; a case that exceeds the wall-clock safety net is abandoned and counted as
+    inconclusive (normal cases take milliseconds to a minute) so that a check always terminates"""
+    import signal
+    import threading
+    if threading.current_thread() is not threading.main_thread():
+        return body(arg)
+
+    def on_alarm(signum, frame):
+        raise CaseTimeout()
+    old = signal.signal(signal.SIGALRM, on_alarm)
+    signal.setitimer(signal.ITIMER_REAL, CASE_LIMIT_S)
+    try:
+        return body(arg)
+    except CaseTimeout:
+        TIMEOUTS.append(1)
+    finally:
+        signal.setitimer(signal.ITIMER_REAL, 0)
+        signal.signal(signal.SIGALRM, old)
+
+
 def base_settings(n, shrink=False, **kw):
     phases = [Phase.generate] if not shrink else [Phase.generate, Phase.shrink]
     return settings(max_examples=n, deadline=None, database=None,
@@ -22,7 +51,7 @@ def run_given(strategy, body, n, seed):
     @base_settings(n)
     @given(strategy)
     def test(x):
-        body(x)
+        _guarded(body, x)
     test()
 
 
@@ -32,7 +61,7 @@ def run_data(body, n, seed):
     @base_settings(n)
     @given(st.data())
     def test(data):
-        body(data)
+        _guarded(body, data)
     test()
 
 
@@ -52,7 +81,10 @@ def _worker(args):
     fn, pid, tier, seed, level, shard, payload = args
     from hx.run import Ctx
     ctx = Ctx(pid, tier=tier, seed=seed, level=level, shard=shard)
+    del TIMEOUTS[:]
     fn(ctx, shard, payload)
+    if TIMEOUTS:
+        ctx.count('inconclusive:case_abandoned_by_wall_clock_safety_net', len(TIMEOUTS))
     return ctx.export()
 
 
